@@ -418,3 +418,22 @@ func (k *Keys) ByBlob(blob []byte) string {
 	}
 	return ""
 }
+
+// HashByName maps "sha1","sha256","sha384","sha512" to the digest.
+func HashByName(n string) (crypto.Hash, bool) {
+	switch n {
+	case "sha1":
+		return crypto.SHA1, true
+	case "sha256":
+		return crypto.SHA256, true
+	case "sha384":
+		return crypto.SHA384, true
+	case "sha512":
+		return crypto.SHA512, true
+	}
+	return 0, false
+}
+
+// HashForFormat is the digest a signature format designates (ok=false for
+// names this harness does not know).
+func HashForFormat(format string) (crypto.Hash, bool) { return hashForFormat(format) }
